@@ -199,7 +199,7 @@ def written_roots(stmts, intents, acc=None):
     return acc
 
 
-CRASHES = ('merge_crash', 'merge_resolve_crash', 'value_of_value_crash')
+CRASHES = ('merge_crash', 'value_of_value_crash')
 
 
 def classify_unit(unit, mode, sd, intents):
@@ -212,29 +212,12 @@ def classify_unit(unit, mode, sd, intents):
         flags |= mflags
         if 'merge_crash' in flags:
             return {'merge_crash'}
-        if mode == 'both' and sd == 0 and call_in_assoc(unit[4]):
-            return {'merge_resolve_crash'}
     if mode in ('resolve', 'both'):
         rf = classify_resolve(decls, body, sd, intents)
         if 'value_of_value_crash' in rf:
             return {'value_of_value_crash'}
         flags |= rf
     return flags
-
-
-def has_call(e):
-    h = _h(e)
-    if h == 'call':
-        return True
-    if h == 'idx':
-        return any(has_call(c) for c in e[2:])
-    if h == 'sec':
-        return any(has_call(c) for d in e[2:] for c in d[1:] if not _is_none(c))
-    if h in ('neg', 'not'):
-        return has_call(e[1])
-    if h == 'bin':
-        return has_call(e[2]) or has_call(e[3])
-    return False
 
 
 def stmt_exprs(s):
@@ -249,16 +232,6 @@ def stmt_exprs(s):
     if h == 'callsub':
         return list(s[2:])
     return []          # PRINT arguments and ASSOCIATE selectors are not visited by the resolver
-
-
-def call_in_assoc(body):
-    """an intrinsic function reference inside the body of some ASSOCIATE block"""
-    for s in fir.iter_stmts(body):
-        if _h(s) == 'assoc':
-            for t in fir.iter_stmts(s[2]):
-                if any(has_call(e) for e in stmt_exprs(t)):
-                    return True
-    return False
 
 
 def classify_resolve(decls, body, sd, intents):
@@ -975,7 +948,7 @@ def undeclared_names(tprog):
 
 
 # priority of classes when one failure has to be attributed to one class
-PRIORITY = ['merge_crash', 'merge_resolve_crash', 'value_of_value_crash', 'merge_name_clash', 'merge_moved_dependent', 'merge_moved_not_invariant',
+PRIORITY = ['merge_crash', 'value_of_value_crash', 'merge_name_clash', 'merge_moved_dependent', 'merge_moved_not_invariant',
             'print_unresolved', 'bounds_shift', 'index_modified', 'merge_empty_associate']
 
 
